@@ -677,6 +677,24 @@ def work_loop(item, col):
                     col.outcome("loop_pets_planner_actions_beyond_the_bound_by_rounding")
         else:
             col.outcome(f"loop_{algo}_warmup_actions")
+    if not pets and result is not None:
+        # the TRAINED policy (and target policy) still maps into the box: evaluate the returned modules on the
+        # observations of the run (with policy_scale the tanh is saturated, so the output sits on scale/bias)
+        probes = {"policy": acting_policy(algo, result)}
+        for f in ("policy_target", "policy_with_encoder_target"):
+            if hasattr(result, f):
+                probes[f] = getattr(result, f)
+        obs_list = [np.asarray(t[0], dtype=np.float32) for t in env.transitions()][:6]
+        for pname, pol in probes.items():
+            for o in obs_list:
+                try:
+                    out = np.asarray(pol(jnp.asarray(o)))
+                except Exception:  # noqa: BLE001 - composite targets with another call signature are skipped
+                    break
+                col.tick(1)
+                col.outcome("trained_policy_outputs_probed")
+                containment(col, entry + "[returned " + pname + "]", out.astype(np.float32), lo32, hi32, ULP_ALLOW,
+                            dict(routine=entry, module=pname, observation=o.tolist(), box=item["box"]))
     if item.get("zero_noise") and len(steps) > ls:
         acting = acting_policy(algo, result)
         for t, e in enumerate(steps):
